@@ -54,7 +54,7 @@ def generate(res, tier, wd, want, wrappers=("cvxpy",)):
     want(prog_record) -> bool selects the programs this property needs."""
     classes_all = list(range(1, 13))
     # (1) exhaustive on the design: invariants hold for the ideal design
-    r = tlc("Pep", pep_cfg(2 if tier == "quick" else 3, 2, [1, 4, 9] if tier == "quick" else [1, 4, 8, 9],
+    r = tlc("Pep", pep_cfg(2 if tier == "quick" else 3, 2, [4] if tier == "quick" else [1, 4, 9],
                            wrappers, emit=False), wd, coverage=True)
     if r["violated"]:
         raise Machinery("Pep.tla (ideal design) violates %s" % r["violated"])
